@@ -52,6 +52,26 @@ Theorem c06_reader_complete : forall w s v, Document w s v -> parse w s = JOk v.
 Proof. exact parse_complete. Qed.
 Print Assumptions c06_reader_complete.
 
+(* the caller's scratch stream (JSON::Parse(stream, content, length), D81): whatever the stream holds
+   on entry -- e.g. the decoded units a failed parse left behind -- the result is that of a parse
+   with a fresh stream (the first step clears it); hence a sequence of texts parsed through one
+   stream gives, text by text, the results of the texts alone *)
+Theorem c06_scratch_stream_irrelevant : forall w st s,
+  match parse_stream w st s with JOk (v, _) => JOk v | JErr e => JErr e end = parse w s.
+Proof. exact parse_stream_any. Qed.
+Print Assumptions c06_scratch_stream_irrelevant.
+
+Theorem c06_history_independent : forall w texts st, parse_history w st texts = map (parse w) texts.
+Proof. exact parse_history_independent. Qed.
+Print Assumptions c06_history_independent.
+
+(* non-vacuity: without the clearing step the leftover [a; LF] is prepended to the next escaped string *)
+Theorem c06_d81_example :
+  pval 20 0 [97; 10] [91; 34; 120; 92; 116; 121; 34; 93] = JOk (JArr [JStr [97; 10; 120; 9; 121]], [], []) /\
+  parse_stream 0 [97; 10] [91; 34; 120; 92; 116; 121; 34; 93] = JOk (JArr [JStr [120; 9; 121]], []).
+Proof. exact d81_leftover_without_clear. Qed.
+Print Assumptions c06_d81_example.
+
 (* non-vacuity: a tree with every construct is well-formed at every width and parses *)
 Theorem c06_example : cval_wf 1 ex_tree = true /\ parse 1 (cprint 1 ex_tree) = JOk (cdenote 1 ex_tree).
 Proof. split; [apply ex_tree_wf|exact ex_tree_parses]. Qed.
